@@ -2,6 +2,8 @@
 from __future__ import annotations
 
 import asyncio
+import contextvars
+import gc
 
 import asynkit
 import asynkit.coroutine as ak_coro
@@ -42,7 +44,8 @@ SYNC_CATCHES = ["E1", "E2", "Cancelled", "GenExit", "Exception", "BaseException"
 def gen_sync(rng):
     p_await = rng.choice([0.0, 0.0, 0.08, 0.2])
     catches = SYNC_CATCHES if rng.random() < 0.35 else ["E1", "E2", "Exception", "Cancelled"]
-    return cm.gen_prog(rng, allow_fut=rng.random() < 0.5, catches=catches, p_await=p_await)
+    return cm.gen_prog(rng, allow_fut=rng.random() < 0.5, catches=catches, p_await=p_await,
+                       ctxvars=rng.random() < 0.5)
 
 
 def depth_of(stmts):
@@ -60,11 +63,28 @@ def outcome(fn):
         r = fn()
         return f"r:{cm.val(r)}", "-"
     except BaseException as e:  # noqa: BLE001
-        c = e.__cause__
+        # the chaining clause of the property is about SynchronousError only
+        c = e.__cause__ if isinstance(e, ak_coro.SynchronousError) else None
         return "x:" + cm.cname(e), ("x:" + cm.cname(c)) if c is not None else "-"
 
 
+def in_ctx(fn, *a):
+    """Run in a private copy of the current context (cases must not see each other's ContextVars);
+    everything the *caller* of await_sync can observe is read inside it."""
+    def start():
+        # the base context may have been written by a garbage-collected coroutine's finally block;
+        # every run starts from the same values
+        for v in cm.CV:
+            v.set(0)
+        return fn(*a)
+    return contextvars.copy_context().run(start)
+
+
 def run_sync_real(stmts, loop, variant):
+    return in_ctx(_run_sync_real, stmts, loop, variant)
+
+
+def _run_sync_real(stmts, loop, variant):
     env = cm.Env(stmts, loop)
     if variant == "syncfunction":
         holder = {}
@@ -77,13 +97,18 @@ def run_sync_real(stmts, loop, variant):
     else:
         c = env.main()
         out, cause = outcome(lambda: asynkit.await_sync(c))
-    line = f"out={out} ; cause={cause} ; phase={cm.phase(c)} ; log={env.log()}"
+    line = f"out={out} ; cause={cause} ; phase={cm.phase(c)} ; log={env.log()} ; {env.cv_line()}"
     return line, env, c
 
 
 def native_expect(stmts, loop):
-    """Independent oracle: what a native run does.  Returns dict."""
-    env = cm.Env(stmts, loop)
+    return in_ctx(_native_expect, stmts, loop)
+
+
+def _native_expect(stmts, loop):
+    """Independent oracle: what a native run does, in the caller's context, with the oracle's own
+    abort class (a plain BaseException) thrown at the suspension point.  Returns dict."""
+    env = cm.Env(stmts, loop, abort_cls=cm.RefAbort)
     c = env.main()
     try:
         y = c.send(None)
@@ -95,8 +120,9 @@ def native_expect(stmts, loop):
         first = ("y", y)
     res = {"first": first}
     if first[0] != "y":
+        res["cv"] = env.cv_line()
         # completes without suspending: cross-check with a genuine event-loop run
-        env2 = cm.Env(stmts, loop)
+        env2 = cm.Env(stmts, loop, abort_cls=cm.RefAbort)
         try:
             r = loop.run_until_complete(env2.main())
             res["loop"] = f"r:{cm.val(r)}"
@@ -107,7 +133,7 @@ def native_expect(stmts, loop):
         res["log_direct"] = env.log()
     else:
         try:
-            y2 = c.throw(ak_coro.SynchronousAbort())
+            y2 = c.throw(cm.RefAbort())
         except StopIteration:
             res["abort"] = "-"
         except BaseException as e:  # noqa: BLE001
@@ -117,6 +143,8 @@ def native_expect(stmts, loop):
             res["keep2"] = y2
         res["log"] = env.log()
         res["finished"] = asynkit.coro_is_finished(c)
+        if res["abort"] != "yield":
+            res["cv"] = env.cv_line()
     res["keep"] = (env, c)
     return res
 
@@ -150,6 +178,10 @@ def judge_sync(stmts, loop, variant="await_sync"):
     bad = None
     if depth_of(stmts) >= 1:
         tags.add(f"nested-depth-{depth_of(stmts)}")
+    if "cset" in cm.sexp(stmts):
+        tags.add("contextvar-writes")
+    if exp["first"][0] == "x" and exp["first"][1] in ("InvalidState", "RT.other", "RT.stopiter", "GenExit"):
+        tags.add("body-raises-" + exp["first"][1])
     if exp["first"][0] != "y":
         if exp["loop"] != exp["out"] or exp["log"] != exp["log_direct"]:
             raise core.InfraError(f"oracle inconsistent: {exp}")
@@ -160,6 +192,9 @@ def judge_sync(stmts, loop, variant="await_sync"):
             bad = ("side effects differ from the native run", exp["log"], a["log"])
         elif a["phase"] != "done":
             bad = ("coroutine not finished after completing", "done", a["phase"])
+        elif f"cv={a['cv']} ; reset={a['reset']}" != exp["cv"]:
+            bad = ("context-variable side effects visible to the caller differ from the native run", exp["cv"],
+                   f"cv={a['cv']} ; reset={a['reset']}")
     else:
         y = exp["first"][1]
         on_future = isinstance(y, asyncio.Future)
@@ -179,6 +214,9 @@ def judge_sync(stmts, loop, variant="await_sync"):
             elif a["log"] != exp["log"]:
                 bad = ("finally/handler effects differ from a native abort at the suspension point",
                        exp["log"], a["log"])
+            elif f"cv={a['cv']} ; reset={a['reset']}" != exp["cv"]:
+                bad = ("context-variable side effects visible to the caller differ from the native run", exp["cv"],
+                       f"cv={a['cv']} ; reset={a['reset']}")
             elif on_future:
                 why = check_future_untouched(env, loop)
                 if why:
@@ -202,7 +240,24 @@ class AI:
         return await self.subs[i]()
 
 
+def envs_cv_line(envs):
+    """caller-visible ContextVars after iterating, then after resetting all tokens newest first"""
+    now = f"{cm.CV[0].get()},{cm.CV[1].get()}"
+    try:
+        for e in reversed(envs):
+            for i, t in reversed(e.TOKS):
+                cm.CV[i].reset(t)
+        after = f"{cm.CV[0].get()},{cm.CV[1].get()}"
+    except (ValueError, RuntimeError) as ex:
+        after = type(ex).__name__
+    return f"cv={now} ; reset={after}"
+
+
 def run_aiter_real(progs, n, loop):
+    return in_ctx(_run_aiter_real, progs, n, loop)
+
+
+def _run_aiter_real(progs, n, loop):
     envs = [cm.Env(p, loop) for p in progs]
     it = asynkit.aiter_sync(AI([e.main for e in envs]))
     items, end = [], "more"
@@ -213,34 +268,38 @@ def run_aiter_real(progs, n, loop):
             end = "stop"
             break
         except BaseException as e:  # noqa: BLE001
-            c = e.__cause__
+            c = e.__cause__ if isinstance(e, ak_coro.SynchronousError) else None
             end = f"x:{cm.cname(e)} cause={('x:' + cm.cname(c)) if c is not None else '-'}"
             break
-    return f"items={' '.join(map(str, items)) if items else '-'} ; end={end}", envs
+    return f"items={' '.join(map(str, items)) if items else '-'} ; end={end} ; {envs_cv_line(envs)}", envs
 
 
 def native_aiter(progs, n, loop):
+    return in_ctx(_native_aiter, progs, n, loop)
+
+
+def _native_aiter(progs, n, loop):
     """Independent oracle.  If no __anext__ suspends: a genuine `async for` under an event loop.
     Otherwise: step each __anext__ body natively up to the first one that suspends; there the
     expected end is SynchronousError chained to the native outcome of the abort (None = outside
     the domain: abort swallowed and suspended again)."""
     suspends = False
     for p in progs:
-        e = cm.Env(p, loop)
-        c = e.main()
+        e = cm.Env(p, loop, abort_cls=cm.RefAbort)
+        c = contextvars.copy_context().run(e.main)
         try:
-            c.send(None)
+            contextvars.copy_context().run(c.send, None)
         except BaseException:  # noqa: BLE001
             continue
         suspends = True
         try:
-            c.close()
+            contextvars.copy_context().run(c.close)
         except BaseException:  # noqa: BLE001
             pass
     if not suspends:
-        envs = [cm.Env(p, loop) for p in progs]
+        envs = [cm.Env(p, loop, abort_cls=cm.RefAbort) for p in progs]
 
-        async def consume():
+        async def iterate():
             items = []
             ai = AI([e.main for e in envs])
             try:
@@ -251,14 +310,21 @@ def native_aiter(progs, n, loop):
             except BaseException as e:  # noqa: BLE001
                 return items, f"x:{cm.cname(e)} cause=-"
             return items, "stop"
-        items, end = loop.run_until_complete(consume())
-        return f"items={' '.join(map(str, items)) if items else '-'} ; end={end}"
+
+        async def consume():
+            # the Task's context is a copy of ours: read what the consumer can see from inside it
+            items, end = await iterate()
+            return items, end, envs_cv_line(envs)
+        items, end, cv = loop.run_until_complete(consume())
+        return f"items={' '.join(map(str, items)) if items else '-'} ; end={end} ; {cv}"
     items, end = [], None
+    envs = []
     for i in range(n):
         if i >= len(progs):
             end = "stop"
             break
-        e = cm.Env(progs[i], loop)
+        e = cm.Env(progs[i], loop, abort_cls=cm.RefAbort)
+        envs.append(e)
         c = e.main()
         try:
             c.send(None)
@@ -272,7 +338,7 @@ def native_aiter(progs, n, loop):
             end = f"x:{cm.cname(ex)} cause=-"
             break
         try:
-            c.throw(ak_coro.SynchronousAbort())
+            c.throw(cm.RefAbort())
         except StopIteration:
             end = "x:SyncError cause=-"
         except BaseException as ex:  # noqa: BLE001
@@ -286,7 +352,7 @@ def native_aiter(progs, n, loop):
         break
     if end is None:
         end = "more"
-    return f"items={' '.join(map(str, items)) if items else '-'} ; end={end}"
+    return f"items={' '.join(map(str, items)) if items else '-'} ; end={end} ; {envs_cv_line(envs)}"
 
 
 def gen_aiter(rng):
@@ -294,7 +360,7 @@ def gen_aiter(rng):
     progs = []
     for _ in range(k):
         p = cm.gen_prog(rng, budget=[rng.randint(1, 6)], p_await=rng.choice([0.0, 0.0, 0.0, 0.15]),
-                        catches=["E1", "E2", "Exception"])
+                        catches=["E1", "E2", "Exception", "Cancelled"], ctxvars=rng.random() < 0.5)
         if rng.random() < 0.7 and not any(s[0] in ("ret", "raise") for s in p):
             p = p + [("ret", rng.choice([1, 2, 3, 4]))]
         progs.append(p)
@@ -313,6 +379,8 @@ def key_of(kind, bad):
         slug = "no-SynchronousError"
     elif "result differs" in w:
         slug = "result"
+    elif "context-variable" in w:
+        slug = "contextvars"
     else:
         slug = "effects"
     return f"c05:{kind}:{slug}"
@@ -320,7 +388,9 @@ def key_of(kind, bad):
 
 def explore_sync(ctx, cases, loop, label=""):
     lines, reals = [], []
-    for stmts, variant in cases:
+    for n_case, (stmts, variant) in enumerate(cases):
+        if n_case % 500 == 0:
+            gc.collect()        # see run(): garbage is only finalised here, outside any case's context
         try:
             real, tags, bad = judge_sync(stmts, loop, variant)
         except SyntaxError as e:
@@ -332,7 +402,7 @@ def explore_sync(ctx, cases, loop, label=""):
         if bad is not None:
             small = cm.shrink_prog(stmts, lambda p: (judge_sync(p, loop, variant)[2] or ("",))[0] == bad[0])
             b2 = judge_sync(small, loop, variant)[2] or bad
-            ctx.violation(key_of("await_sync", b2), f"{label}{b2[0]}",
+            ctx.violation(key_of(variant if "context-variable" in b2[0] else "await_sync", b2), f"{label}{b2[0]}",
                           {"kind": "sync", "variant": variant, "prog": small, "source": cm.source(small)},
                           expected=b2[1], observed=b2[2],
                           theorem="Asynkit.C05.awaitSync_complete / awaitSync_abort / awaitSync_leaves_awaited")
@@ -343,7 +413,9 @@ def explore_sync(ctx, cases, loop, label=""):
 
 def explore_aiter(ctx, cases, loop, label=""):
     lines, reals = [], []
-    for progs, n in cases:
+    for n_case, (progs, n) in enumerate(cases):
+        if n_case % 500 == 0:
+            gc.collect()
         real, envs = run_aiter_real(progs, n, loop)
         exp = native_aiter(progs, n, loop)
         tags = set()
@@ -363,7 +435,7 @@ def explore_aiter(ctx, cases, loop, label=""):
                           theorem="Asynkit.C05.aiterSync_eq")
         if progs:
             lines.append(line)
-            reals.append(real)
+            reals.append(real.split(" ; cv=")[0])     # the model line carries items and end only
     return lines, reals
 
 
@@ -399,6 +471,10 @@ def run(ctx):
     rng = ctx.rng
     loop = asyncio.new_event_loop()
     asyncio.set_event_loop(loop)
+    # The cyclic collector may finalise a suspended coroutine left over from an earlier case at any
+    # allocation; its `finally` blocks would then write ContextVars into whichever context is
+    # current.  Collection is therefore done explicitly between cases only.
+    gc.disable()
     try:
         l0, r0 = explore_sync(ctx, corpus_cases(), loop, label="corpus: ")
         n = 80000 if ctx.thorough() else 3000
@@ -410,6 +486,7 @@ def run(ctx):
         l2, r2 = explore_aiter(ctx, acases, loop)
         correspond(ctx, l0 + l1 + l2, r0 + r1 + r2)
     finally:
+        gc.enable()
         asyncio.set_event_loop(None)
         loop.close()
 
